@@ -58,6 +58,22 @@ def scope_of(root: I.El, target: I.El):
     return sc
 
 
+def uses_prefix(e: I.El, p: str) -> bool:
+    """True if the subtree uses prefix p in a name or in anything that could be a prefixed value."""
+    for x in e.iter():
+        if x.prefix == p or any(k.startswith(p + ":") for k, _v in x.attrs):
+            return True
+        for _k, v in x.attrs:
+            if isinstance(v, str) and (p + ":") in v:
+                return True
+        for t in x.kids:
+            if isinstance(t, str) and (p + ":") in t:
+                return True
+        if p in x.nsdecls:
+            return True
+    return False
+
+
 def els(root):
     return list(root.iter())
 
@@ -66,9 +82,14 @@ def sites(root: I.El, spec: G.ModelSpec) -> list[tuple]:
     """Every (rewrite kind, site) applicable to this document."""
     out = []
     all_els = els(root)
-    generic = any(f.cat in ("wildcard", "anytype", "attributes") or "wildcard" in f.tags for f in spec.fields)
+    generic = any(f.cat in ("wildcard", "anytype", "attributes") or "wildcard" in f.tags or "generic-child" in f.tags for f in spec.fields)
     has_text_field = any(f.cat == "text" for f in spec.fields)
     qnameish = any(({"qname", "xsi"} & f.tags) or f.cat in ("anytype", "wildcard") for f in spec.fields)
+    mixed_model = any("w:mixed" in f.tags for f in spec.fields)
+    model_child_names = set()
+    for f in spec.fields:
+        if f.cat == "model" and "generic-child" in f.tags and not spec.elem_gen:
+            model_child_names |= {eval(f.meta["name"])} if f.meta.get("name") else {f.name}
     for i, e in enumerate(all_els):
         for p in list(e.nsdecls):
             if p and p not in ("xml",):
@@ -87,8 +108,22 @@ def sites(root: I.El, spec: G.ModelSpec) -> list[tuple]:
             out.append(("reverse-attrs", i))
             if len(e.attrs) == 3:
                 out.append(("rotate-attrs", i))
+        # an attribute that is a QName by definition: pad it with whitespace
+        if any(a[0] == "xsi:type" for a in e.attrs):
+            out.append(("xsi-type-ws", i))
+        # shadow a prefix in an EARLIER sibling that does not use it: later siblings must still see the ancestor's binding
+        if i > 0:
+            sc_here = scope_of(root, e)
+            for p, u in sc_here.items():
+                if p and u and p not in ("xml",) and not uses_prefix(e, p) and p not in e.nsdecls:
+                    out.append(("shadow-prefix", i, p))
         kids_el = [k for k in e.kids if isinstance(k, I.El)]
         kids_tx = [k for k in e.kids if isinstance(k, str)]
+        bound_here = (e is root or e.local in model_child_names) and not mixed_model
+        if kids_el and not kids_tx and bound_here and not has_text_field and generic:
+            # class-bound element-only content that contains generic children: gaps of THIS element only
+            for g in range(len(e.kids) + 1):
+                out.append(("ws-gap", i, g))
         if kids_el and not kids_tx and not generic and not has_text_field:
             for g in range(len(e.kids) + 1):
                 out.append(("ws-gap", i, g))
@@ -124,10 +159,13 @@ def sites(root: I.El, spec: G.ModelSpec) -> list[tuple]:
         tkey = next((t[2:] for t in f.tags if t.startswith("t:")), None)
         if tkey in NONSTRING or (f.cat == "text" and ("tokens" in f.tags or "int" in f.ann)):
             out.append(("value-ws", f.name, f.cat))
-    # XInclude extraction of each child subtree of the root
+    # XInclude extraction of each child subtree of the root (plain, and with a comment / PI inside the included part's text)
     for j, k in enumerate(root.kids):
         if isinstance(k, I.El):
             out.append(("xinclude", j))
+            if any(isinstance(t, str) and len(t) >= 2 for x in k.iter() for t in x.kids):
+                out.append(("xinclude", j, "comment"))
+                out.append(("xinclude", j, "pi"))
     return out
 
 
@@ -181,6 +219,21 @@ def apply(root: I.El, rw: tuple, spec: G.ModelSpec, workdir: str):
                 if p == "" and not u:
                     continue
                 e.nsdecls[p] = u
+    elif kind == "xsi-type-ws":
+        e = all_els[rw[1]]
+        e.attrs = [(k, (" \n" + v + "\t") if k == "xsi:type" else v) for k, v in e.attrs]
+        mode = "values"
+    elif kind == "shadow-prefix":
+        e = all_els[rw[1]]
+        par, j = None, None
+        for x in all_els:
+            for jj, kk in enumerate(x.kids):
+                if kk is e:
+                    par, j = x, jj
+        later = [k for k in par.kids[j + 1:] if isinstance(k, I.El)] if par is not None else []
+        if not later:
+            return None
+        e.nsdecls[rw[2]] = "urn:shadowed-binding"
     elif kind == "reverse-attrs":
         e = all_els[rw[1]]
         e.attrs = list(reversed(e.attrs))
@@ -260,8 +313,15 @@ def apply(root: I.El, rw: tuple, spec: G.ModelSpec, workdir: str):
                 part.nsdecls[p] = u
         if sc.get("") and "" not in part.nsdecls:
             part.nsdecls[""] = sc[""]
+        if len(rw) > 2:
+            tn = next(((x, jj) for x in part.iter() for jj, t in enumerate(x.kids) if isinstance(t, str) and len(t) >= 2), None)
+            if tn is None:
+                return None
+            x, jj = tn
+            t = x.kids[jj]
+            x.kids[jj:jj + 1] = [t[: len(t) // 2], ("raw", "<!--c-->" if rw[2] == "comment" else "<?pi x?>"), t[len(t) // 2:]]
         with open(os.path.join(workdir, "part.xml"), "w", encoding="utf-8") as fh:
-            fh.write(part.write())
+            fh.write(_write(part))
         inc = I.El("xi:include", {"xi": XI}, [("href", "part.xml")], [])
         r.kids[rw[1]] = inc
         mode = "xinclude"
@@ -352,12 +412,14 @@ def base_parse(ctx, model, original: str, hname, handler):
 
 
 @harness("c09.rewrite")
-def h_rewrite(ch: Chooser, vec: list, maxf: int, nrewrites: int):
+def h_rewrite(ch: Chooser, vec: list, maxf: int, nrewrites: int, seed: str | None = None):
     spec = G.model_from_vector(vec, maxf)
     model = G.Model(spec)
     workdir = None
     try:
-        exprs = pick_instance(ch, spec, False)
+        exprs = pick_instance(ch, spec, False, seed)
+        if seed and not any(seed in e for e in exprs):
+            return {"skip": True, "reason": "seed construct not in this model"}
         use_default = ch.flag("serialize-with-default-ns")
         obj = model.instance(exprs)
         ns_map = {None: spec.meta_ns} if (use_default and spec.meta_ns) else None
@@ -368,6 +430,18 @@ def h_rewrite(ch: Chooser, vec: list, maxf: int, nrewrites: int):
             return {"skip": True, "reason": "not serializable (C01/C03 subject)"}
         original = r[1]
         root = I.from_text(original)
+        # free variant: every namespace declaration hoisted to the root (where that is unambiguous), so that values
+        # depend on bindings made by an ancestor -- how hand-written documents usually look
+        if ch.choose(2, "hoist-all-xmlns", free=True):
+            moved = False
+            for x in list(root.iter())[1:]:
+                for p, u in list(x.nsdecls.items()):
+                    if p and all(y.nsdecls.get(p, u) == u for y in root.iter()) and root.nsdecls.get(p, u) == u:
+                        root.nsdecls[p] = x.nsdecls.pop(p)
+                        moved = True
+            if not moved:
+                return {"skip": True, "reason": "nothing to hoist"}
+            original = _write(root)
         all_sites = sites(root, spec)
         chosen = []
         cur_root = root
@@ -450,6 +524,14 @@ def run(tier: str, seed: int) -> int:
     nrw, bound = (2, 2) if th else (1, 1)
     vecs = G.enumerate_models(dm, maxf)
     tasks = [("c09.rewrite", dict(vec=v, maxf=maxf, nrewrites=nrw), bound, ()) for v in vecs]
+    # documents that carry xsi:type / QName values as the starting point
+    for v in vecs:
+        spec = G.model_from_vector(v, maxf)
+        tags = set().union(*[f.tags for f in spec.fields])
+        if "xsi" in tags:
+            tasks.append(("c09.rewrite", dict(vec=v, maxf=maxf, nrewrites=nrw, seed="Derived("), bound, ()))
+        if "qname" in tags or any(f.cat == "anytype" for f in spec.fields):
+            tasks.append(("c09.rewrite", dict(vec=v, maxf=maxf, nrewrites=nrw, seed="QName('{urn:q}"), bound, ()))
     stats = parallel(tasks, explore_task, chunk=8)
     confirm_violations(stats)
     return finish(
